@@ -1,6 +1,7 @@
 #!/bin/bash
 # RUSTC_WRAPPER for the sync-point engine (Engine B', DESIGN §3.2b): cargo calls `wrapper rustc args...`.
-# The library crate is compiled unoptimised with a call to `mcount` at every function entry
+# The library crate and the harness crate (which holds the instantiations of the library's generic
+# functions) are compiled with inlining disabled and a call to `mcount` at every function entry
 # (including the std generics it instantiates: Mutex::lock, AtomicUsize::fetch_add, LocalKey::with, ...);
 # the harness defines `mcount` and turns entries of synchronisation functions into scheduling points.
 rustc="$1"; shift
@@ -10,10 +11,20 @@ for a in "$@"; do
   if [ "$prev" = "--crate-name" ]; then name="$a"; fi
   prev="$a"
 done
+# PP_MC_MODE=fast   (default): inlining is suppressed enough for Mutex/RwLock/Once/LocalKey/guard-drop
+#                    entries to survive; single-use helpers are still inlined; about 5x slower than release
+# PP_MC_MODE=atomic : inlining fully suppressed so that even AtomicX::load/store/compare_exchange keep
+#                    their entry hook; about 25x slower; used only for trees that mention atomics
+# (cargo does not see this variable: the two modes use different --target-dir's)
+if [ "${PP_MC_MODE:-fast}" = "atomic" ]; then
+  INL="-Cllvm-args=-inline-threshold=-1000000 -Cllvm-args=-inlinehint-threshold=-1000000"
+else
+  INL="-Cllvm-args=-inline-threshold=-10000"
+fi
 case "$name" in
-  pairing_plus)
-    exec "$rustc" "$@" -Zinstrument-mcount -Copt-level=3 -Zinline-mir=no -Zmerge-functions=disabled -Cllvm-args=-inline-threshold=-1000000 -Cllvm-args=-inlinehint-threshold=-1000000 -Cdebug-assertions=off -Coverflow-checks=off -Cforce-frame-pointers=yes ;;
-  pp_sim)
+  pairing_plus|pp_sim)
+    exec "$rustc" "$@" -Zinstrument-mcount -Copt-level=3 -Zinline-mir=no -Zmerge-functions=disabled $INL -Cdebug-assertions=off -Coverflow-checks=off -Cforce-frame-pointers=yes ;;
+  mchook)
     exec "$rustc" "$@" --cfg pp_mcount -Cforce-frame-pointers=yes ;;
   *)
     exec "$rustc" "$@" ;;
